@@ -765,7 +765,7 @@ class NodeList(FastTypedDict):
         if len(slots) != n_slots:
             # free whatever we got
             for slot in slots:
-                node = self.nodes[slot.node_index]
+                node = self._get_node(slot.node_index)
                 node.deallocate_slot(slot)
             self.__last_failed_rr__ = rr
             self.__last_failed_n__  = n_slots
@@ -778,11 +778,28 @@ class NodeList(FastTypedDict):
 
     # --------------------------------------------------------------------------
     #
+    def _get_node(self, node_index: int) -> 'Node':
+
+        # node indexes are not necessarily positions in the node list (backup
+        # nodes can replace inaccessible nodes, leaving a gap)
+        if  0 <= node_index < len(self.nodes) and \
+            self.nodes[node_index].index == node_index:
+            return self.nodes[node_index]
+
+        for node in self.nodes:
+            if node.index == node_index:
+                return node
+
+        raise ValueError('unknown node index %s' % node_index)
+
+
+    # --------------------------------------------------------------------------
+    #
     def release_slots(self, slots: List[Slot]) -> None:
 
         for slot in slots:
 
-            node = self.nodes[slot.node_index]
+            node = self._get_node(slot.node_index)
             node.deallocate_slot(slot)
 
         if self.__last_failed_rr__:
